@@ -362,4 +362,43 @@ theorem pton6_iff_rfc4291 (s : List Char) (v : Nat) : pton6 s = some v ↔ Rfc42
         · exact tail_no_colon q qw hq t h
         · rw [hpad _ t h]; simp
 
+/-- the grammar is unambiguous: a string denotes at most one value -/
+theorem rfc4291_functional (s : List Char) (v v' : Nat) (h : Rfc4291 s v) (h' : Rfc4291 s v') : v = v' := by
+  rw [← pton6_iff_rfc4291] at h h'
+  rw [h] at h'; exact Option.some.inj h'
+
+/-- a string the parser model refuses is outside the grammar (used for the negative examples) -/
+theorem rfc4291_reject (s : List Char) (h : pton6 s = none) : ¬ ∃ v, Rfc4291 s v := by
+  rintro ⟨v, hv⟩
+  rw [← pton6_iff_rfc4291, h] at hv
+  cases hv
+
+theorem group_isHexC (t : List Char) (h : IsGroup t) : ∀ c ∈ t, isHexC c = true :=
+  fun c hc => (isHexC_iff c).mpr (h.2.2 c hc)
+
+/-- every string of the grammar has a first ':' preceded by hex digits only -/
+theorem rfc4291_shape (s : List Char) (v : Nat) (h : Rfc4291 s v) :
+    ∃ pre r, s = pre ++ ':' :: r ∧ ∀ c ∈ pre, isHexC c = true := by
+  rcases h with ⟨G, q, qw, hG, hq, rfl, hlen, _⟩ | ⟨A, B, q, qw, hA, _, _, rfl, _, _⟩
+  · cases G with
+    | nil =>
+      exfalso
+      rcases tail_length q qw hq with ⟨_, h0⟩ | ⟨_, h2⟩ <;> simp only [List.length_nil] at hlen <;> omega
+    | cons g G' =>
+      have hne : G' ++ q ≠ [] := by
+        intro e
+        have e' := congrArg List.length e
+        simp only [List.length_append, List.length_nil, List.length_cons] at e' hlen
+        rcases tail_length q qw hq with ⟨_, h0⟩ | ⟨_, h2⟩ <;> omega
+      exact ⟨g, joinColon (G' ++ q), by rw [List.cons_append, joinColon_cons_ne g _ hne],
+        group_isHexC g (hG g (by simp))⟩
+  · cases A with
+    | nil => exact ⟨[], _, rfl, by simp⟩
+    | cons a A' =>
+      refine ⟨a, ?_, ?_, group_isHexC a (hA a (by simp))⟩
+      · exact (match A' with | [] => [] | _ :: _ => joinColon A' ++ [':']) ++ ':' :: joinColon (B ++ q)
+      · cases A' with
+        | nil => simp [joinColon]
+        | cons a' A'' => rw [joinColon_cons_ne a _ (by simp)]; simp
+
 end NV.C01G
